@@ -428,7 +428,32 @@ func c19(c *core.Ctx) {
 	if c.Rule("R5", "the import_path override is in place for every file before any stub is generated: no call that registers the override is reachable from a call of the per-file generator (a file generated earlier would otherwise fix an imported file's package from its own path first, and the stubs would import the wrong package)", 1) {
 		n := 0
 		for _, fn := range p.LibFuncs(genPkg) {
-			ovs := core.CallsIn(fn, func(_ *ssa.Call, ci core.CallInfo) bool { return ci.Name == "GoPackageForFileWithOverride" })
+			// a registration site: the call itself, or a call of a step helper of the plugin that makes it
+			var registers func(f *ssa.Function, depth int) bool
+			registers = func(f *ssa.Function, depth int) bool {
+				if f == nil || f.Blocks == nil || depth > 2 {
+					return false
+				}
+				found := false
+				core.Instrs(f, func(in ssa.Instruction) {
+					if call, ok := in.(*ssa.Call); ok {
+						ci := core.InfoOf(&call.Call)
+						if ci.Name == "GoPackageForFileWithOverride" {
+							found = true
+						}
+						if ci.Static != nil && core.PkgIs(ci.Static, genPkg) && ci.Static != f && registers(ci.Static, depth+1) {
+							found = true
+						}
+					}
+				})
+				return found
+			}
+			ovs := core.CallsIn(fn, func(_ *ssa.Call, ci core.CallInfo) bool {
+				if ci.Name == "GoPackageForFileWithOverride" {
+					return true
+				}
+				return ci.Static != nil && core.PkgIs(ci.Static, genPkg) && ci.Static != fn && registers(ci.Static, 1)
+			})
 			if len(ovs) == 0 {
 				continue
 			}
@@ -483,8 +508,30 @@ func c19(c *core.Ctx) {
 			c.Missing("option parser func([]string) (args, error)")
 		} else {
 			key := core.FuncName(pa)
+			// the per-option decisions may sit in a step function of the plugin that the parser calls for each option
+			// (setOption(vals)): the function with the option-name comparisons is the one analysed
+			nameTests := func(f *ssa.Function) int {
+				k := 0
+				for _, ef := range core.EdgeFactsOf(f) {
+					if ef.Fact.Op == token.EQL {
+						if _, ok := core.ConstString(ef.Fact.Y); ok && core.OriginIs(ef.Fact.X, func(o ssa.Value) bool { return optPart(o, 0) }) {
+							k++
+						}
+					}
+				}
+				return k
+			}
+			body := pa
+			best := nameTests(pa)
+			for _, h := range core.HelperCallsOf(pa) {
+				if h.Callee != nil && h.Callee.Blocks != nil && core.PkgIs(h.Callee, genPkg) {
+					if k := nameTests(h.Callee); k > best {
+						body, best = h.Callee, k
+					}
+				}
+			}
 			names := map[string]bool{}
-			for _, ef := range core.EdgeFactsOf(pa) {
+			for _, ef := range core.EdgeFactsOf(body) {
 				if ef.Fact.Op == token.EQL {
 					if s, ok := core.ConstString(ef.Fact.Y); ok {
 						// only comparisons of the option name (vals[0])
@@ -505,7 +552,7 @@ func c19(c *core.Ctx) {
 			c.Check(strings.Join(got, ",") == strings.Join(want, ","), key+":option-names", pa.Pos(), fmt.Sprintf("accepts exactly %v (plus M<file>=<path>)", want), fmt.Sprintf("accepted option names are %v, want %v", got, want))
 			// boolean options: which field does each store into
 			fieldOfOpt := map[string]string{}
-			core.Instrs(pa, func(in ssa.Instruction) {
+			core.Instrs(body, func(in ssa.Instruction) {
 				st, ok := in.(*ssa.Store)
 				if !ok || core.TypeStr(st.Val.Type()) != "bool" {
 					return
@@ -535,7 +582,7 @@ func c19(c *core.Ctx) {
 			c.Check(okBool, key+":bool-options", pa.Pos(), fmt.Sprintf("each boolean option stores into its own field %v", fieldOfOpt), fmt.Sprintf("boolean options do not each store into their own field: %v", fieldOfOpt))
 			// M<file>=<path>: stored under exactly the option name minus its one-letter prefix
 			nM := 0
-			core.Instrs(pa, func(in ssa.Instruction) {
+			core.Instrs(body, func(in ssa.Instruction) {
 				mu, ok := in.(*ssa.MapUpdate)
 				if !ok || core.TypeStr(mu.Map.Type()) != "map[string]string" {
 					return
